@@ -115,7 +115,8 @@ def device_wiring(c):
         of(gen.tx.ready) == I["tx_ready"])),
         clause="each packet comes from a single transmitter: with the other transmitters idle, the UTMI bus carries the generator's bytes and its ready")
     # the generator's start request reseeds the shared CRC unit
-    reg = ts.sig("data_crc.crc")
+    from .c10_unsupported_requests_stall import instance_reg
+    reg = instance_reg(ts, crc, "crc", width=16)      # the CRC unit's own register, located through the real instance
     c.ensure("generator_start_reseeds_crc", z3.Implies(of(gen.crc.start) == 1, c.nx(reg) == 0xFFFF))
     c.inv("true", z3.BoolVal(True))
     c.comb("generator_sees_unit_output", of(gen.crc.crc), spec.crc_field(reg), method="gf2",
